@@ -1,5 +1,8 @@
 import Driver.CT
 import Driver.CA
+import Driver.TG
+import Driver.MA
+import Driver.PV
 /-!
 Line-protocol driver: one operation per input line, one observation per output line:
 `<model observation>\t<spec observation>`.  First token selects the component.
@@ -9,6 +12,9 @@ open Driver
 structure All where
   ct : CT.St := {}
   ca : CA.St := {}
+  tg : TG.St := {}
+  ma : MA.St := {}
+  pv : PV.St := {}
 
 def stepAll (s : All) (line : String) : All × String :=
   match (line.trimAscii.toString.splitOn " ").filter (· ≠ "") with
@@ -18,6 +24,15 @@ def stepAll (s : All) (line : String) : All × String :=
   | "ca" :: args =>
       let (c, a, b) := CA.step s.ca args
       ({ s with ca := c }, a ++ "\t" ++ b)
+  | "tg" :: args =>
+      let (c, a, b) := TG.step s.tg args
+      ({ s with tg := c }, a ++ "\t" ++ b)
+  | "ma" :: args =>
+      let (c, a, b) := MA.step s.ma args
+      ({ s with ma := c }, a ++ "\t" ++ b)
+  | "pv" :: args =>
+      let (c, a, b) := PV.step s.pv args
+      ({ s with pv := c }, a ++ "\t" ++ b)
   | [] => (s, "")
   | _ => (s, "bad-component\tbad-component")
 
